@@ -148,3 +148,7 @@ pub(crate) fn waiters_len(ex: &crate::rt::Execution, idx: usize) -> usize {
     let r: object::Ref<State> = crate::rt::object::verif_kani::mk_ref(idx);
     r.get(crate::rt::execution::verif_kani::objects(ex)).waiters.len()
 }
+
+pub(crate) fn empty_condvar_state() -> State {
+    State { last_access: None, waiters: VecDeque::new() }
+}
